@@ -1221,9 +1221,29 @@ func (r *Run) call(fr *frame, x *ssa.Call) Val {
 		}
 		r.fail("inlined %s ended with %s", name, term)
 	}
+	if purityOracle != nil && purityOracle(callee) {
+		// an effect-free helper the rule does not know: its result is an opaque
+		// function of its arguments
+		parts := make([]string, len(args))
+		for i, a := range args {
+			parts[i] = render(a)
+		}
+		v := VOpq{callee.Name() + "(" + strings.Join(parts, ",") + ")"}
+		if callee.Signature.Results().Len() == 1 && isInt(callee.Signature.Results().At(0).Type()) {
+			return VSym{Name: v.Name}
+		}
+		if callee.Signature.Results().Len() > 1 {
+			r.fail("call to %s (pure, several results) has no summary", name)
+		}
+		return v
+	}
 	r.fail("call to %s has no summary", name)
 	return nil
 }
+
+// purityOracle, when set, lets the interpreter treat unknown effect-free
+// callees as opaque pure functions instead of giving up.
+var purityOracle func(f *ssa.Function) bool
 
 // exitSignal: a summary may end the run (os.Exit).
 type exitSignal struct{ code string }
